@@ -429,6 +429,9 @@ class SendHeaders(Contract):
             return [("refused-before-any-byte-is-sent", wl(c, c.st) == wl(c, c.old))]
         return []
 
+    def effects_closed(self, c):
+        pass
+
     def effects(self, c):
         # call mode: when the head is known to have been sent already, the call changes nothing (not even the ghost wire)
         if const_true(T_(c, c.old, "headers_sent")):
@@ -440,6 +443,7 @@ class SendHeaders(Contract):
         hs0 = T_(c, st0, "headers_sent")
         w1, w0 = wire(c, st1), wire(c, st0)
         out = [("headers_sent-afterwards", T_(c, st1, "headers_sent")),
+               ("wire-only-grows", wl(c, st1) >= wl(c, st0)),
                ("idempotent:nothing-sent-if-already-sent", Implies(hs0, wl(c, st1) == wl(c, st0)))]
         if c.mode == "call":
             out.append(("ghost:head-end-recorded", Implies(Not(hs0), F(c, st1, "g_hend").t == wl(c, st1))))
@@ -566,6 +570,7 @@ class RespWrite(Contract):
         out = RI_resp(c, st1) + [
             ("headers_sent-afterwards", T_(c, st1, "headers_sent")),
             ("sent'==sent+bytes-put-on-the-wire", F(c, st1, "sent").t == F(c, st0, "sent").t + k),
+            ("wire-only-grows", wl(c, st1) >= wl(c, st0)),
         ]
         hs0 = T_(c, st0, "headers_sent")
         dl = wl(c, st1) - wl(c, st0)
@@ -616,7 +621,8 @@ class RespClose(Contract):
     def post(self, c):
         st1, st0 = c.st, c.old
         ch = T_(c, st0, "chunked")
-        out = [("headers_sent-afterwards", T_(c, st1, "headers_sent")), ("sent-unchanged", F(c, st1, "sent").t == F(c, st0, "sent").t)]
+        out = [("headers_sent-afterwards", T_(c, st1, "headers_sent")), ("sent-unchanged", F(c, st1, "sent").t == F(c, st0, "sent").t),
+               ("wire-only-grows", wl(c, st1) >= wl(c, st0))]
         if c.mode == "call":
             return out
         if const_true(T_(c, st0, "headers_sent")):
@@ -721,6 +727,7 @@ class RespSendfile(Contract):
             ("used=>head-sent", Implies(res, T_(c, st1, "headers_sent"))),
             ("used=>body-bytes-accounted:sent'==sent+n", Implies(res, F(c, st1, "sent").t == F(c, st0, "sent").t + n)),
             ("file-offset-restored", st1.obj(st1.obj(c.a["respiter"]).fields["filelike"]).fields["g_offset"].t == off),
+            ("wire-only-grows", wl(c, st1) >= wl(c, st0)),
         ]
         if c.mode != "call" and const_true(T_(c, st0, "headers_sent")):
             w1, w0 = wire(c, st1), wire(c, st0)
